@@ -81,9 +81,10 @@ def inv_fp(inv):
     items = []
     for k, v in inv.contents.items():
         try:
-            items.append((str(k), fbits(v) if not hasattr(v, "is_Rational") else str(v)))
+            # the TYPE of the stored amount is part of the state: '20.25' (a str) is not 20.25
+            items.append((str(k), type(v).__name__, fbits(v) if not hasattr(v, "is_Rational") else str(v)))
         except Exception:  # noqa: BLE001
-            items.append((str(k), repr(v)))
+            items.append((str(k), type(v).__name__, repr(v)))
     return (type(inv).__name__, id(inv.decay_data), tuple(items))
 
 
